@@ -22,7 +22,10 @@ import (
 //   - what the long-lived object produces, the fresh twin accepts (and, for deterministic classes,
 //     produces identically);
 //   - what the fresh twin produces, the long-lived object accepts;
-//   - a candidate the fresh twin rejects, the long-lived object rejects.
+//   - a candidate the fresh twin rejects, the long-lived object rejects;
+//   - what the single-key primitive of a drawn ENABLED non-primary entry produces, the long-lived
+//     object accepts ("accept-nonprimary"), and whatever it produces afterwards (every history ends
+//     with a produce step) still carries the primary's prefix and is accepted by the primary key alone.
 //
 // A primitive obtained from a handle is a function of the handle; anything an earlier call - in
 // particular a failed one - leaves behind in the object shows up as a disagreement with the twin.
@@ -58,16 +61,38 @@ func TestCallHistories(t *testing.T) {
 		fail := func(format string, args ...any) {
 			rt.Fatalf("%v\nhistory on the one long-lived primitive:\n  %s\n%s", s, strings.Join(history, "\n  "), fmt.Sprintf(format, args...))
 		}
+		// single-key primitives, built on first use
+		singles := map[int]*prim{}
+		singleOf := func(e *entry) *prim {
+			if singles[e.idx] == nil {
+				singles[e.idx] = single(rt, a, s, e)
+			}
+			return singles[e.idx]
+		}
+		var nonPrimary []*entry // ENABLED entries other than the primary
+		for _, e := range s.entries {
+			if e.fate == fEnabled && !e.primary {
+				nonPrimary = append(nonPrimary, e)
+			}
+		}
+		kinds := []string{"produce", "produce", "accept", "reject-mutated", "reject-other-input"}
+		if len(nonPrimary) > 0 {
+			kinds = append(kinds, "accept-nonprimary", "accept-nonprimary")
+		}
 		steps := rapid.IntRange(3, 8).Draw(rt, "steps")
-		failedCalls := 0
-		for i := 0; i < steps; i++ {
+		failedCalls, nonPrimaryAccepts, producesAfter := 0, 0, 0
+		for i := 0; i <= steps; i++ {
 			in := &input{
 				msg:     gen.Bytes(rt, "msg", 300),
 				ad:      gen.BytesOrNil(rt, "ad", 40),
 				subject: rapid.StringMatching(`[a-z]{0,8}`).Draw(rt, "subject"),
 				jwtID:   rapid.StringMatching(`[a-z0-9]{0,6}`).Draw(rt, "jwtid"),
 			}
-			switch kind := rapid.SampledFrom([]string{"produce", "produce", "accept", "reject-mutated", "reject-other-input"}).Draw(rt, "step"); kind {
+			kind := "produce" // the history always ends with a produce step
+			if i < steps {
+				kind = rapid.SampledFrom(kinds).Draw(rt, "step")
+			}
+			switch kind {
 			case "produce":
 				out, err := long.produce(in)
 				history = append(history, fmt.Sprintf("produce(%v) -> %d bytes, err=%v", in, len(out), err))
@@ -77,12 +102,35 @@ func TestCallHistories(t *testing.T) {
 				if err := twin().accept(out, in); err != nil {
 					fail("step %d: a primitive built afresh from the same handle does not accept what the long-lived one produced: %v", i, err)
 				}
+				// "produces with the primary key only": whatever was accepted before, through whichever key
+				prim := s.primary()
+				if a.hasPrefix && !bytes.HasPrefix(out, prim.prefix()) {
+					fail("step %d: the long-lived primitive produced %x, which does not start with the primary's prefix %x", i, out, prim.prefix())
+				}
+				if err := singleOf(prim).accept(out, in); err != nil {
+					fail("step %d: the long-lived primitive produced %x, which the primary key %s alone does not accept: %v", i, out, prim, err)
+				}
+				if nonPrimaryAccepts > 0 {
+					producesAfter++
+				}
 				if a.deterministic {
 					want, err := twin().produce(in)
 					if err != nil || !bytes.Equal(out, want) {
 						fail("step %d: deterministic class, the long-lived primitive produced %x, a fresh one %x (%v)", i, out, want, err)
 					}
 				}
+			case "accept-nonprimary":
+				e := rapid.SampledFrom(nonPrimary).Draw(rt, "nonprimary")
+				out, err := singleOf(e).produce(in)
+				if err != nil {
+					fail("the single-key primitive of %s fails to produce: %v", e, err)
+				}
+				err = long.accept(out, in)
+				history = append(history, fmt.Sprintf("accept(output %x of the ENABLED non-primary key #%d alone for %v) -> err=%v", out, e.idx, in, err))
+				if err != nil {
+					fail("step %d: the long-lived primitive rejects an output of the ENABLED non-primary key %s: %v", i, e, err)
+				}
+				nonPrimaryAccepts++
 			case "accept":
 				out, err := twin().produce(in)
 				if err != nil {
@@ -120,6 +168,8 @@ func TestCallHistories(t *testing.T) {
 		}
 		evid.Add("history_steps", int64(steps))
 		evid.Add("history_failed_calls", int64(failedCalls))
+		evid.Add("history_nonprimary_accepts", int64(nonPrimaryAccepts))
+		evid.Add("history_produces_after_nonprimary_accept", int64(producesAfter))
 		fp := evid.NewH().S(a.name).S(s.String())
 		for _, hs := range history {
 			fp = fp.S(hs)
